@@ -43,6 +43,8 @@ SCHEDS = [
     {"policy": "pct", "d": 3, "horizon": 8000, "preempt": "line"},
     {"policy": "rr", "q": 4, "preempt": "line"},
     {"policy": "random", "p": 0.2, "preempt": "sync"},
+    {"policy": "random", "p": 0.5, "preempt": "sync"},
+    {"policy": "pct", "d": 2, "horizon": 150, "preempt": "sync"},
 ]
 OPS = ["are_you_there", "request_svs", "request_sv", "list_svs", "request_ecs", "list_ecs", "set_ec", "set_ec",
        "list_alarms", "enable_alarm", "subscribe", "trigger", "trigger", "go_online", "go_offline", "remote_command",
@@ -67,7 +69,8 @@ def gen_plan(rng, tier, index):
     if rng.random() < 0.5:
         # fault: freshly started threads (API callers, connect/accept/receiver threads) are frozen for a while at one of
         # their first yield points
-        sched["stall"] = {"q": 0.2, "J": 40, "durs": [0.05, 0.5, 3.0], "max": 3}
+        sched["stall"] = {"q": rng.choice([0.1, 0.2, 0.4]), "J": rng.choice([8, 40, 200, 1000]),
+                          "durs": [0.05, 0.5, 3.0], "max": 3}
     plan["sched"] = sched
     return plan
 
@@ -129,6 +132,7 @@ def run(sim, plan):
                 rec["result"] = fn()
             except Exception as exc:  # noqa: BLE001
                 rec["exc"] = exc
+            rec["t1"] = k.now
             rec["done"] = True
 
         sim.spawn(body, f"app_{name}", role="app")
@@ -192,8 +196,9 @@ def run(sim, plan):
                           f"{hist[-5:]}", sig=stuck_sig(f"api-{name}"))
         sim.advance(0.2 + 4 * plan["latency"])
         sim.probe("api_checked")
-        if r["exc"] is not None and k.stalled_within(t_call, k.now) >= 0.4 * T3:
-            # a thread on the call's path was frozen for a good part of T3: the call was cut by a fault (allowed)
+        if k.stalled_within(t_call, r["t1"] if r.get("t1") is not None else k.now) >= 0.4 * T3:
+            # a thread on the call's path was frozen for a good part of T3 while the call ran: the call was cut by a
+            # fault - it may raise, or a request inside it may have timed out silently (allowed, nothing is compared)
             sim.probe("api_cut_by_stall")
             raise Skip()
         if r["exc"] is not None:
